@@ -525,6 +525,25 @@ func TestVerifC17(t *testing.T) {
 			_, rout[i] = c17discover(ctx, discoverParams{subnets: []string{"127.0.0.0/29", "127.0.1.1/32", "127.0.2.2/31"}, asyncLimit: 3, timeout: probeT, scanPort: h.port}, runDeadline)
 		}(i, h)
 	}
+	// wide runs: far more addresses than workers + channel buffer, so that the maximum duration expires while the
+	// address generator is parked on a full channel and the workers are busy (the run must still end in time)
+	wideBeh := []string{"acceptSilent", "stallMidHandshake", "refuse"}
+	wout := make([]string, len(wideBeh))
+	for i, beh := range wideBeh {
+		ln, err := net.Listen("tcp4", "0.0.0.0:0")
+		if err != nil {
+			t.Fatal(err)
+		}
+		h := c17startOn(ln, beh, id, nocaps)
+		hosts = append(hosts, h)
+		wg.Add(1)
+		go func(i int, h *c17host) {
+			defer wg.Done()
+			ctx, cancel := context.WithTimeout(context.Background(), runD)
+			defer cancel()
+			_, wout[i] = c17discover(ctx, discoverParams{subnets: []string{"127.0.3.0/27", "127.0.4.0/28"}, asyncLimit: 2, timeout: probeT, scanPort: h.port}, runDeadline)
+		}(i, h)
+	}
 	// a run whose context is already over when it starts
 	wg.Add(1)
 	go func() {
@@ -538,6 +557,9 @@ func TestVerifC17(t *testing.T) {
 		o.line(fmt.Sprintf("run-check %s %d %d %s", beh, runD.Milliseconds(), probeT.Milliseconds(), rout[i]), "accept")
 	}
 	o.line(fmt.Sprintf("run-check refuse 0 %d %s", probeT.Milliseconds(), rout[len(runBeh)]), "accept")
+	for i, beh := range wideBeh {
+		o.line(fmt.Sprintf("run-check %s %d %d %s", beh, runD.Milliseconds(), probeT.Milliseconds(), wout[i]), "accept")
+	}
 	for _, h := range hosts {
 		if h.beh != "refuse" {
 			h.close()
